@@ -57,6 +57,18 @@ CHECKS = {
         "one write(2) or inside sqlite are not modelled; tmp_fname()-shaped leftovers are allowed and only counted.",
         "DESIGN.md 4/C15, 3.6",
     ),
+    "C16": (
+        "exploration",
+        "schedule-controlled concurrency testing: Hypothesis-generated thread schedules at filesystem-operation yield points + perturbed multi-process runs, post-run audit",
+        "2-4 writers stage+transfer overlapping trees into one LocalHashFileDB with one state database; the harness "
+        "owns the thread schedule (one writer runs at a time, switches at every mutating audit event, mid-copy point "
+        "and stat call under the scratch root, order drawn by Hypothesis, so failures shrink and replay); a process "
+        "arm perturbs timing with drawn micro-delays. The schedule-independent oracle audits every object against "
+        "hashlib, every writer's directory object against the reference listing, protection bits and state rows.",
+        "Interleavings are explored only at harness yield points; bytecode-level and in-sqlite races are not forced; "
+        "the process arm does not replay exactly.",
+        "DESIGN.md 4/C16, 3.7",
+    ),
 }
 
 NOT_YET = "check not built yet in this round; see DESIGN.md section 4 for the planned generated check"
